@@ -7,15 +7,29 @@ import os, sys
 ROOT = os.path.dirname(os.path.dirname(os.path.abspath(__file__)))
 skip = set(sys.argv[1:])
 OPS = [("Plus", "add"), ("Minus", "sub"), ("Mul", "mul"), ("Div", "div"), ("Mod", "mod")]
-TAC = {"add": "num_arith", "sub": "num_arith", "mul": "num_arith", "div": "num_arith", "mod": "num_arith", "neg": "num_arith"}
+
+def tac(o, hi, lo):
+    """tactic closing the goal after `unfold <generated definition>`"""
+    if o == "div":
+        return "num_div a b"
+    if o == "mod":
+        return "num_mod a b"
+    if o == "mul":
+        return f"num_mul a b ({hi}) ({lo})"
+    return "num_arith"
+
+def bounds(fam, w):
+    if fam == "int":
+        return 2 ** (w - 1) - 1, -2 ** (w - 1)
+    return 2 ** w - 1, 0
 
 def ty(fam, w):
     return f"(.{fam} {w})"
 
 def c11():
-    types = [(f"Int{w}", ty("int", w), True) for w in (8, 16, 32, 64, 128, 256)] + \
-            [(f"UInt{w}", ty("uint", w), False) for w in (8, 16, 32, 64, 128, 256)] + \
-            [("Int", ".bigInt", True), ("UInt", ".bigUInt", False)]
+    types = [(f"Int{w}", ty("int", w), True, bounds("int", w)) for w in (8, 16, 32, 64, 128, 256)] + \
+            [(f"UInt{w}", ty("uint", w), False, bounds("uint", w)) for w in (8, 16, 32, 64, 128, 256)] + \
+            [("Int", ".bigInt", True, (0, 0)), ("UInt", ".bigUInt", False, (0, 0))]
     out = ["""/-
 C11 — Sized integer arithmetic is exact or fails.
 
@@ -32,7 +46,7 @@ namespace Verif.Properties.C11
 open Verif.Model.Num Verif.Spec.Arith Verif.Gen.NumGo Verif.Proofs.Arith
 """]
     n = 0
-    for name, t, signed in types:
+    for name, t, signed, (hi, lo) in types:
         out.append(f"/-! ### {name} -/\n")
         for m, o in OPS:
             th = f"C11_{name}_{o}"
@@ -41,7 +55,7 @@ open Verif.Model.Num Verif.Spec.Arith Verif.Gen.NumGo Verif.Proofs.Arith
                 continue
             out.append(f"theorem {th} (a b : Int) (ha : inRange {t} a) (hb : inRange {t} b) :\n"
                        f"    {name}Value.{m} a b = specChecked {t} .{o} a b := by\n"
-                       f"  unfold {name}Value.{m}; {TAC[o]}\n")
+                       f"  unfold {name}Value.{m}; {tac(o, hi, lo)}\n")
             n += 1
         if signed:
             th = f"C11_{name}_neg"
@@ -50,7 +64,7 @@ open Verif.Model.Num Verif.Spec.Arith Verif.Gen.NumGo Verif.Proofs.Arith
             else:
                 out.append(f"theorem {th} (a : Int) (ha : inRange {t} a) :\n"
                            f"    {name}Value.Negate a = specNeg {t} a := by\n"
-                           f"  unfold {name}Value.Negate; {TAC['neg']}\n")
+                           f"  unfold {name}Value.Negate; num_arith\n")
                 n += 1
     out.append("""/-! ### Non-vacuity: the hypotheses are satisfiable and every branch of the spec is reached -/
 
@@ -89,7 +103,7 @@ open Verif.Model.Num Verif.Spec.Arith Verif.Gen.NumGo Verif.Proofs.Arith
                 continue
             out.append(f"theorem {th} (a b : Int) (ha : inRange (.word {w}) a) (hb : inRange (.word {w}) b) :\n"
                        f"    Word{w}Value.{m} a b = specWord {w} .{o} a b := by\n"
-                       f"  unfold Word{w}Value.{m}; {TAC[o]}\n")
+                       f"  unfold Word{w}Value.{m}; {tac(o, 2 ** w - 1, 0)}\n")
             n += 1
     out.append("""/-- the spec never fails with overflow / underflow: a Word operation fails only by division by zero -/
 theorem C12_only_divZero (n : Nat) (op : Op) (a b : Int) (e : NumErr) (h : specWord n op a b = .error e) :
